@@ -3,7 +3,7 @@
 
   saturate.py <cases.ndjson> <tier> <seed_lo> <seed_hi> [arch-filter]   run the driver directly
       (no TLC stages) for every seed and print / accumulate the distinct (entry, outcome, key)
-      classes of non-ok outcomes into /var/tmp/c05sat/classes.json
+      classes of non-ok outcomes into selftest/C05/classes.json
   saturate.py --emit   merge classes.json into known_findings.d/C05.json (existing entries keep
       their id / what / status; new classes get the next free id)
 
@@ -28,16 +28,18 @@ def classes_of(summary):
     return g
 
 
+ACC = os.path.join(os.path.dirname(os.path.abspath(__file__)), "classes.json")   # kept with the self-test
+
+
 def load_acc():
-    p = os.path.join(OUT, "classes.json")
+    p = ACC
     if os.path.exists(p):
         return {tuple(json.loads(k)): v for k, v in json.load(open(p)).items()}
     return {}
 
 
 def save_acc(acc):
-    os.makedirs(OUT, exist_ok=True)
-    json.dump({json.dumps(list(k)): v for k, v in acc.items()}, open(os.path.join(OUT, "classes.json"), "w"), indent=1, sort_keys=True)
+    json.dump({json.dumps(list(k)): v for k, v in acc.items()}, open(ACC, "w"), indent=1, sort_keys=True)
 
 
 def sweep(cases, tier, lo, hi, arch):
@@ -68,23 +70,64 @@ def slug(s):
     return re.sub(r"[^A-Za-z0-9]+", "-", s).strip("-")[:48]
 
 
+OVERFLOW = re.compile(r"^(.*): attempt to (add|subtract|multiply|shift left|shift right|negate) with overflow$")
+MPQ_READ_PATH = ["Archive::open", "Archive::list", "Archive::read_file"]   # open/list read special files through read_file
+NOTES = {
+    "wow-mpq/src/archive.rs: index out of bounds": "read_file: `data[0]` (compression-method byte) on a single-unit file whose compressed_size is 0",
+    "wow-mpq/src/crypto/jenkins.rs": "het_hash: `1u64 << (hash_bits - 1)` / `>> (hash_bits - 8)` with HET/BET hash widths 0..7",
+    "wow-mpq/src/archive.rs: attempt": "open: file_size - table_offset / hi_block_offset + size*8 computed without checked arithmetic on header offsets",
+    "wow_cdbc::parser::DbcParser::parse_records": "Vec::with_capacity(header.record_count) before the count is compared with the data length",
+    "wow_cdbc::parser::DbcParser::parse_record_raw": "Vec::with_capacity(header.field_count) per record, field_count unchecked",
+    "wow_cdbc::stringblock::StringBlock::parse": "vec![0; string_block_size] unchecked against the remaining bytes",
+    "wow-cdbc/src/versions.rs": "WDB2 extended header: (max_index - min_index + 1) * 6 in i32/u64 without checks",
+    "wow_mpq::compression::algorithms::rle::decompress": "vec![0u8; decompressed_size] taken from PTCH.patch_size (up to 4 GiB)",
+    "wow-mpq/src/patch/apply.rs": "ctrl_start + ctrl_block_size (u64 from the bsdiff40 header as usize) overflows",
+    "implode-": "PKWARE implode (external crate `implode` 0.1.1) panics on hostile dictionary bits / back references / ASCII mode; reached via any compression-method byte with bit 0x08",
+    "wow_wdl::types::Chunk::read": "Chunk::read allocates vec![0u8; size] for every chunk with no bound",
+    "wow_m#::common::read_array": "M2Array: Vec::with_capacity(count) without comparing count * elem_size with the file length",
+    "wow_m#::common::read_raw_bytes": "vec![0; count * elem_size] from an unchecked M2Array",
+    "wow-adt/src/root_parser.rs: index out of bounds": "MH2O exists-bitmap: (w*h+7)/8 bytes copied into an 8-byte buffer when width*height > 64",
+    "wow-adt/src/root_parser.rs: attempt": "MH2O instance: x_offset + width / y_offset + height in u8",
+    "wow-wmo/src/group_parser.rs": "`chunk_info.size - 68` when the MOGP chunk is shorter than its 68-byte header",
+    "wow-blp/src": "mipmap offset + size (and width * height) in u32 without checked arithmetic (wraps in release, then slices out of range)",
+    "wow-m2/src/anim.rs": "`size - header_size` when an anim entry size is below 16",
+    "alloc/src/raw_vec/mod.rs: capacity overflow": "vec![0u8; size_64 as usize] with a 64-bit table size >= 2^63 from the V3/V4 header",
+}
+
+
+def generalise(acc):
+    """class-level signatures: (entry set, outcome, key pattern). Arithmetic-overflow panics of one file are
+    one class per entry; keys reached through Archive::read_file are shared by open/list/read_file."""
+    groups = {}
+    for (e, o, key), v in acc.items():
+        m = OVERFLOW.match(key) if o == "panic" else None
+        gkey = ("re", m.group(1)) if m else ("eq", key)
+        ent = "MPQ-READ" if e in MPQ_READ_PATH else e
+        g = groups.setdefault((ent, o, gkey), {"n": 0, "fields": set(), "entries": set()})
+        g["n"] += v["n"]
+        g["fields"] |= set(v["fields"])
+        g["entries"].add(e)
+    return groups
+
+
 def emit():
     acc = load_acc()
     old = json.load(open(KF))["findings"] if os.path.exists(KF) else []
-    by = {(f["match"]["entry"], f["match"]["outcome"], f["match"]["key"]): f for f in old}
-    nxt = 1 + max([int(f["id"].split("-")[1]) for f in old] or [0])
-    out = list(old)
-    for k in sorted(acc):
-        if k in by:
-            continue
-        e, o, key = k
-        what = (f"{e}: {o} " + ("at " if o == "panic" else "requested by ") + key +
-                f" (fields: {', '.join(acc[k]['fields'][:4])})")
-        out.append({"property": "C05", "id": f"C05-{nxt:03d}-{slug(e + '-' + o)}", "status": "known",
-                    "match": {"entry": e, "outcome": o, "key": key}, "what": what})
-        nxt += 1
+    status = {json.dumps(f["match"], sort_keys=True): f.get("status", "known") for f in old}
+    out = []
+    for n, ((ent, o, (kind, key)), g) in enumerate(sorted(generalise(acc).items(), key=lambda kv: (kv[0][0], kv[0][1], kv[0][2][1])), 1):
+        entry = {"in": MPQ_READ_PATH} if ent == "MPQ-READ" else ent
+        kpat = {"re": "^" + re.escape(key) + ": attempt to (add|subtract|multiply|shift left|shift right|negate) with overflow$"} if kind == "re" else key
+        match = {"entry": entry, "outcome": o, "key": kpat}
+        note = next((t for k, t in NOTES.items() if key.startswith(k) or (k in key and k.startswith("implode"))), "")
+        shown = key + (": arithmetic overflow (debug-build panic; wraps in release)" if kind == "re" else "")
+        what = (f"{'/'.join(sorted(g['entries']))}: {o} " + ("at " if o == "panic" else "requested by ") + shown +
+                (f" -- {note}" if note else "") + f" (e.g. {', '.join(sorted(g['fields']))[:160]})")
+        ename = "Archive-read-path" if ent == "MPQ-READ" else ent
+        out.append({"property": "C05", "id": f"C05-{n:03d}-{slug(ename + '-' + o)}",
+                    "status": status.get(json.dumps(match, sort_keys=True), "known"), "match": match, "what": what})
     json.dump({"findings": out}, open(KF, "w"), indent=1)
-    print(f"{KF}: {len(out)} findings ({len(out) - len(old)} new)")
+    print(f"{KF}: {len(out)} findings from {len(acc)} observed classes")
 
 
 if __name__ == "__main__":
